@@ -12,13 +12,17 @@ import (
 )
 
 // EditKinds of a partially applied file.
-var EditKinds = []string{"change", "insert", "delete", "swap", "truncate", "append", "respace-literal"}
+var EditKinds = []string{"change", "insert", "delete", "swap", "truncate", "append", "respace-literal", "move-boundary"}
 
 // ApplyEdit edits a statement list. It returns the new list.
-func ApplyEdit(t *simkit.Tape, stmts []string, tag string, fresh *int) (out []string, kind string, at int) {
+// delim is the file's own delimiter ("" = the default one, which is part of a statement's text).
+func ApplyEdit(t *simkit.Tape, stmts []string, tag string, fresh *int, delim string) (out []string, kind string, at int) {
 	kind = EditKinds[t.Draw("edit-kind", len(EditKinds))]
 	newStmt := func() string {
 		*fresh++
+		if delim != "" {
+			return stmtText(tag, 100+*fresh, 0)
+		}
 		return stmtText(tag, 100+*fresh, 0) + ";"
 	}
 	out = append([]string(nil), stmts...)
@@ -62,15 +66,29 @@ func ApplyEdit(t *simkit.Tape, stmts []string, tag string, fresh *int) (out []st
 		}
 		at = cand[t.Draw("edit-at", len(cand))]
 		out[at] = strings.Replace(out[at], "'a;b -- c'", "'a;b  -- c'", 1)
+	case "move-boundary":
+		// The border between two statements moves by a few characters: both statements are others
+		// now, their concatenation is what it was. (Needs a file with a delimiter of its own: the
+		// default delimiter is part of the statement's text.)
+		if delim == "" || n < 2 {
+			kind, at = "change", t.Draw("edit-at", n)
+			out[at] = newStmt()
+			break
+		}
+		at = t.Draw("edit-at", n-1)
+		out[at], out[at+1] = out[at]+out[at+1][:3], out[at+1][3:]
 	}
 	return
 }
 
-func renderStmts(stmts []string) string {
+func renderStmts(stmts []string, delim string) string {
 	var b strings.Builder
+	if delim != "" {
+		fmt.Fprintf(&b, "-- atlas:delimiter %s\n\n", delim)
+	}
 	for _, s := range stmts {
 		b.WriteString(s)
-		b.WriteString("\n")
+		b.WriteString(delim + "\n")
 	}
 	return b.String()
 }
@@ -116,6 +134,20 @@ func C12(r *simkit.Run) {
 	}
 	n := t.Range("victim-stmts", 1, 5)
 	victim := genFile(t, 2, "f2", n)
+	// Some files set a delimiter of their own (a directive on the first line); a statement's text is
+	// then what stands between two delimiters.
+	delim := ""
+	if t.Chance("victim-sets-its-own-delimiter", 1, 4) {
+		delim = ";;"
+		for i, st := range victim.Stmts {
+			victim.Stmts[i] = strings.TrimSuffix(st, ";")
+		}
+		victim.Body = renderStmts(victim.Stmts, delim)
+		if st, err := migrate.NewLocalFile(victim.Name, []byte(victim.Body)).Stmts(); err != nil || strings.Join(st, "\x00") != strings.Join(victim.Stmts, "\x00") {
+			simkit.Harnessf("file with its own delimiter scans differently: %v %q vs %q", err, st, victim.Stmts)
+		}
+		r.Probe("victim-sets-its-own-delimiter")
+	}
 	files = append(files, victim)
 	vi := len(files) - 1
 	post := t.Chance("successor", 1, 3)
@@ -173,7 +205,7 @@ func C12(r *simkit.Run) {
 	}
 	// The operator edits the file and re-hashes.
 	fresh := 0
-	newStmts, kind, at := ApplyEdit(t, victim.Stmts, "f2", &fresh)
+	newStmts, kind, at := ApplyEdit(t, victim.Stmts, "f2", &fresh, delim)
 	drv.FailAlways = map[string]bool{} // the cause of the failure is gone
 	touches := len(newStmts) < k
 	for i := 0; i < k && i < len(newStmts); i++ {
@@ -188,7 +220,7 @@ func C12(r *simkit.Run) {
 	case len(newStmts) < n:
 		lenChange = "shorter"
 	}
-	if err := dir.WriteFile(victim.Name, []byte(renderStmts(newStmts))); err != nil {
+	if err := dir.WriteFile(victim.Name, []byte(renderStmts(newStmts, delim))); err != nil {
 		simkit.Harnessf("write: %v", err)
 	}
 	sum, _ := dir.Checksum()
@@ -196,7 +228,7 @@ func C12(r *simkit.Run) {
 		simkit.Harnessf("sum: %v", err)
 	}
 	// The scanner must see what the editor wrote.
-	scanned, serr := migrate.NewLocalFile(victim.Name, []byte(renderStmts(newStmts))).Stmts()
+	scanned, serr := migrate.NewLocalFile(victim.Name, []byte(renderStmts(newStmts, delim))).Stmts()
 	if serr != nil || strings.Join(scanned, "\x00") != strings.Join(newStmts, "\x00") {
 		simkit.Harnessf("edited file scans differently: %v %q vs %q", serr, scanned, newStmts)
 	}
